@@ -44,6 +44,8 @@ func runC08(e *Env) {
 	ruleC08NewSize(e)
 	ruleC08Text(e)
 	ruleC08Max(e, e.P, "")
+	ruleC08Bytes(e)
+	e.S.Floor("C08.bytes", 24)
 	e.S.Floor("C08.ovf", 8)
 	e.S.Floor("C08.text", 6)
 	e.S.Floor("C08.max", 36)
@@ -360,6 +362,110 @@ func ruleC08Max(e *Env, prog *load.Prog, tag string) {
 				e.S.Bad(rule, site, construct, fmt.Sprintf("%s(reflect.%s) = %v, the bound of that kind is %v", f.name, r.kind, out.Ret, want), "", "")
 			} else {
 				e.S.Ok(rule, site, construct, fmt.Sprintf("%s(reflect.%s) = %s", f.name, r.kind, want.String()), "")
+			}
+		}
+	}
+}
+
+// ruleC08Bytes: size.Bytes[N] per reflect.Kind of N: integer kinds succeed exactly when the size does not exceed the
+// kind's maximum, float kinds exactly when the conversion round-trips; the value returned is the converted size.
+func ruleC08Bytes(e *Env) {
+	const rule = "C08.bytes"
+	fn := e.Fn(rule, "size", "Bytes")
+	kindFn := e.P.Func("internal", "Kind")
+	if fn == nil || kindFn == nil {
+		return
+	}
+	site := flow.FnName(fn)
+	var reflectPkg, mathPkg *types.Package
+	for _, p := range e.P.SSA.AllPackages() {
+		switch p.Pkg.Path() {
+		case "reflect":
+			reflectPkg = p.Pkg
+		case "math":
+			mathPkg = p.Pkg
+		}
+	}
+	if reflectPkg == nil || mathPkg == nil {
+		return
+	}
+	cval := func(pkg *types.Package, name string) constant.Value {
+		if c, ok := pkg.Scope().Lookup(name).(*types.Const); ok {
+			return c.Val()
+		}
+		return nil
+	}
+	kinds := []struct {
+		kind, max string
+	}{{"Int", "MaxInt"}, {"Int8", "MaxInt8"}, {"Int16", "MaxInt16"}, {"Int32", "MaxInt32"}, {"Int64", "MaxInt64"},
+		{"Uint", "MaxUint"}, {"Uint8", "MaxUint8"}, {"Uint16", "MaxUint16"}, {"Uint32", "MaxUint32"}, {"Uint64", "MaxUint64"},
+		{"Float32", ""}, {"Float64", ""}}
+	for _, k := range kinds {
+		kv := cval(reflectPkg, k.kind)
+		sums := map[string]pred.Summary{kindFn.String(): func(ev *pred.Evaluator, args []pred.Val) (pred.Val, error) {
+			return pred.Const{V: kv}, nil
+		}}
+		keyOf := func(a, b pred.Val) (string, bool) {
+			if a.String() == "s" {
+				if c, ok := b.(pred.Const); ok && c.V != nil {
+					return "s?" + c.V.ExactString(), true
+				}
+				if b.String() == "conv[N](s)" || b.String() == "conv[uint64](conv[N](s))" {
+					return "roundtrip", true
+				}
+			}
+			if b.String() == "s" && (a.String() == "conv[N](s)" || a.String() == "conv[uint64](conv[N](s))") {
+				return "roundtrip", true
+			}
+			return "", false
+		}
+		domain := func(key string) []int {
+			if key == "roundtrip" {
+				return []int{0, 1}
+			}
+			return []int{-1, 0, 1}
+		}
+		leaves, err := extractTree(e.P.SSA, fn, func() []pred.Val { return []pred.Val{pred.Sym{Name: "s"}} }, sums, nil, keyOf, domain)
+		if err != nil {
+			e.S.Unk(rule, site, k.kind, err.Error(), e.Pos(fn))
+			continue
+		}
+		for _, lf := range leaves {
+			construct := k.kind + " {" + lf.String() + "}"
+			if lf.Err != nil {
+				e.S.Unk(rule, site, construct, lf.Err.Error(), e.Pos(fn))
+				continue
+			}
+			t, ok := lf.Out.Ret.(pred.Tuple)
+			if !ok || len(t) != 2 {
+				e.S.Unk(rule, site, construct, lf.Out.Ret.String(), e.Pos(fn))
+				continue
+			}
+			gotOK, _ := boolOf(t[1])
+			want, determined := false, false
+			if k.max != "" {
+				maxKey := "s?" + cval(mathPkg, k.max).ExactString()
+				if v, asked := lf.Assign[maxKey]; asked && len(lf.Assign) == 1 {
+					want, determined = v <= 0, true
+				}
+			} else if v, asked := lf.Assign["roundtrip"]; asked && len(lf.Assign) == 1 {
+				want, determined = v == 0, true
+			}
+			switch {
+			case !determined:
+				crit := "comparison with math." + k.max
+				if k.max == "" {
+					crit = "exact round trip through the float type"
+				}
+				e.S.Bad(rule, site, construct, fmt.Sprintf("for kind %s the verdict (ok=%v) does not depend on exactly the %s", k.kind, gotOK, crit), e.Pos(fn), "")
+			case gotOK != want:
+				e.S.Bad(rule, site, construct, fmt.Sprintf("ok=%v, exact representability demands %v", gotOK, want), e.Pos(fn), "")
+			case gotOK && t[0].String() != "conv[N](s)":
+				e.S.Bad(rule, site, construct, "on success the value returned is "+t[0].String()+", not the converted size", e.Pos(fn), "")
+			case !gotOK && t[0].String() != "0":
+				e.S.Bad(rule, site, construct, "on failure the value returned is "+t[0].String()+", not 0", e.Pos(fn), "")
+			default:
+				e.S.Ok(rule, site, construct, fmt.Sprintf("ok=%v", want), e.Pos(fn))
 			}
 		}
 	}
